@@ -61,6 +61,12 @@ def main():
                     meta = json.load(open(mp)); meta["applies_to_head"] = False; json.dump(meta, open(mp, "w"), indent=1)
                     continue
         b = sh(["go", "build", "./..."], cwd=scratch, env=env)
+        if b.returncode != 0 and how != "patch_head.diff" and os.path.exists(alt):
+            # applies as text but no longer builds on the current tree: the hand re-created patch
+            sh(["git", "-C", scratch, "reset", "-q", "--hard"])
+            if sh(["git", "-C", scratch, "apply", alt]).returncode == 0:
+                how = "patch_head.diff"
+                b = sh(["go", "build", "./..."], cwd=scratch, env=env)
         if b.returncode != 0:
             print(n, "DOES NOT BUILD on", head[:7], b.stderr[-300:].replace("\n", " "), flush=True)
             meta = json.load(open(mp)); meta["applies_to_head"] = False; json.dump(meta, open(mp, "w"), indent=1)
